@@ -21,7 +21,7 @@ PROPERTY = 'C14'
 
 KEYS = ['none', 'discard', 'bare', 'prefixed', 'other-version', 'cr', 'lf', 'crlf']
 AUTHS = ['none', 'basic0', 'basic1', 'basic3', 'basic1tok', 'basic3mixed']
-PORT_FORMS = ['int', 'pair', 'string', 'unix']
+PORT_FORMS = ['int', 'pair', 'string', 'unix', 'ippair']
 BAD_PORTS = ['not-a-list', 'triple', 'non-int', 'string-no-space', 'string-public-ip']
 BLOB = 'AAAAB3NzaKEYBLOBxyz012=='
 # a real RSA-1024 key and the v2 service id derived from it (base32(sha1(DER public key)[:10])): authenticated (v2) services are
@@ -73,6 +73,8 @@ def port_arg(form, i, shared=False):
         return (pub, 8000 + i), (pub, '127.0.0.1:%d' % (8000 + i))
     if form == 'string':
         return '%d 127.0.0.1:%d' % (pub, 9000 + i), (pub, '127.0.0.1:%d' % (9000 + i))
+    if form == 'ippair':
+        return (pub, '192.168.1.%d:%d' % (i + 2, 8400 + i)), (pub, '192.168.1.%d:%d' % (i + 2, 8400 + i))
     return (pub, 'unix:/run/app%d.sock' % i), (pub, 'unix:/run/app%d.sock' % i)
 
 
@@ -81,7 +83,7 @@ def bad_ports(kind):
             'string-public-ip': ['80 8.8.8.8:80']}[kind]
 
 
-def run_create(version, key, detach, single_hop, auth, ports_forms, entry='create', echo_key=False, bad=None):
+def run_create(version, key, detach, single_hop, auth, ports_forms, entry='create', echo_key=False, bad=None, reuse=False):
     viol = []
     log = []
     with World() as w:
@@ -116,163 +118,170 @@ def run_create(version, key, detach, single_hop, auth, ports_forms, entry='creat
                     return (250, parts)
                 return r
             sim.override('ADD_ONION', echo)
-        base = len(sim.commands)
-        raised = None
-        rec = None
-        try:
-            if entry in ('tor', 'tor-nonanon'):
-                from txtorcon.controller import Tor
-                # 'tor-nonanon': the Tor object of a Tor launched in non-anonymous mode; the service's flags still follow the request
-                tor = Tor(w.reactor, impl.proto, _tor_config=impl.cfg, _non_anonymous=(True if entry == 'tor-nonanon' else None))
-                d = tor.create_onion_service(args, private_key=kw['private_key'], version=version,
-                                             single_hop=single_hop, detach=detach)
-            elif auth == 'none':
-                d = EphemeralOnionService.create(w.reactor, impl.cfg, args, **kw)
-            else:
-                d = EphemeralAuthenticatedOnionService.create(w.reactor, impl.cfg, args, auth=auth_arg(auth), **kw)
-            rec = DRec(d)
-        except Exception as e:
-            raised = e
-        sim.pump()
-        cmds = sim.commands[base:]
-        adds = [c for c in cmds if c.startswith('ADD_ONION')]
-        stray = [c for c in cmds if not c.startswith(('ADD_ONION', 'SETEVENTS', 'GETINFO', 'GETCONF'))]
-        feat = 'v%d/%s/%s' % (version, key, auth)
-        should_reject = bad is not None or key in ('cr', 'lf', 'crlf')
-        svc_mid = None
-        if should_reject:
-            failed = raised is not None or (rec is not None and rec.kind == 'err')
-            if adds:
-                viol.append(('add-onion-sent-for-rejected-request', bad or ('key-' + key), 'sent %r' % (adds,)))
-            if not failed:
-                viol.append(('bad-request-not-refused', bad or ('key-' + key), 'create() -> %r' % (rec.summary() if rec else None,)))
-            if stray:
-                viol.append(('stray-command', stray[0].split()[0], '%r' % (stray,)))
-            obs = ('rejected', tuple(adds))
-        elif key == 'other-version' and not adds:
-            failed = raised is not None or (rec is not None and rec.kind == 'err')
-            if not failed:
-                viol.append(('bad-request-not-refused', 'key-other-version', '%r' % (rec.summary() if rec else None,)))
-            obs = ('rejected-other-version',)
-        else:
-            if raised is not None:
-                viol.append(('create-raised', feat + '/' + type(raised).__name__, '%r' % (raised,)))
-                return dict(viol=viol, obs=('raised',), log=log)
-            if len(adds) != 1:
-                viol.append(('not-one-add-onion', 'n=%d' % len(adds), '%s: %r' % (feat, adds)))
-                return dict(viol=viol, obs=('n', len(adds)), log=log)
-            line = adds[0]
-            log.append(line)
-            try:
-                req = addonion.parse(line[len('ADD_ONION '):])
-            except addonion.BadRequest as e:
-                viol.append(('add-onion-malformed', feat, '%r: %s' % (line, e)))
-                return dict(viol=viol, obs=('malformed',), log=log)
-            # key specifier
-            kt, blob = req['key_spec']
-            kw_blob = RSA_BLOB if auth != 'none' else BLOB
-            pre = 'RSA1024' if version == 2 else 'ED25519-V3'
-            if key in ('none', 'discard'):
-                ok = (kt == 'NEW' and ((version == 3 and blob == 'ED25519-V3') or (version == 2 and blob in ('BEST', 'RSA1024'))))
-            elif key == 'bare':
-                ok = (kt, blob) == (pre, kw_blob)
-            elif key == 'prefixed':
-                ok = (kt, blob) == (pre, kw_blob)
-            else:
-                other = 'ED25519-V3' if version == 2 else 'RSA1024'
-                ok = (kt, blob) == (other, kw_blob)
-            if not ok:
-                viol.append(('key-specifier', '%s/v%d' % (key, version), 'requested key %s for version %d, sent %s:%s' % (key, version, kt, blob)))
-            # ports
-            got_ports = req['ports']
-            wp = list(want_ports)
-            assigned = [p.port for p in w.reactor.ports]
-            ok_ports = len(got_ports) == len(wp)
-            if ok_ports:
-                ai = 0
-                for (gv, gt), (wv, wt) in zip(got_ports, wp):
-                    if wt is None:
-                        wt = '127.0.0.1:%d' % (assigned[ai] if ai < len(assigned) else -1)
-                        ai += 1
-                    if (gv, gt) != (wv, wt):
-                        ok_ports = False
-            if not ok_ports:
-                viol.append(('port-mappings', '/'.join(ports_forms), 'requested %r, ADD_ONION has %r (reactor assigned %r)' % (args, got_ports, assigned)))
-            # flags
-            want_flags = set()
-            if detach:
-                want_flags.add('Detach')
-            if key == 'discard':
-                want_flags.add('DiscardPK')
-            if auth != 'none':
-                want_flags.add('BasicAuth')
-            if single_hop:
-                want_flags.add('NonAnonymous')
-            if set(req['flags']) != want_flags or len(req['flags']) != len(set(req['flags'])):
-                miss = sorted(want_flags - set(req['flags']))
-                extra = sorted(set(req['flags']) - want_flags)
-                viol.append(('flags', 'missing-%s' % '+'.join(miss) if miss else 'extra-%s' % '+'.join(extra),
-                             '%s detach=%r single_hop=%r: Flags=%r, reference %r' % (feat, detach, single_hop, req['flags'], sorted(want_flags))))
-            if req['client_auth'] != auth_expected(auth):
-                viol.append(('client-auth', auth, 'sent %r, reference %r' % (req['client_auth'], auth_expected(auth))))
-            # between the reply and completion
-            sid = list(sim.onions)[-1] if sim.onions else None
-            pend_services = [s for s in impl.cfg.EphemeralOnionServices]
-            svc_mid = pend_services[-1] if pend_services else None
-            if svc_mid is not None and key == 'discard':
-                pk = svc_mid.private_key
-                if pk is not None and pk is not DISCARD:
-                    viol.append(('discarded-key-stored', 'before-completion', 'private_key is %r although discarding was requested' % (pk,)))
-            if rec.fires:
-                viol.append(('completed-before-upload', feat, 'create() fired before any descriptor upload: %r' % (rec.summary(),)))
-            if auth != 'none' and key == 'discard':
-                # without the key the client cannot recognise this service's HS_DESC events: checked up to the reply only
-                errs = w.errors()
-                if errs:
-                    viol.append(('logged-error', errs[0][1], '%r' % (errs[:1],)))
-                return dict(viol=viol, obs=(line, 'after-reply-only'), log=log)
-            # the descriptor upload that lets creation finish
-            sim.event('HS_DESC UPLOAD %s UNKNOWN $%s somedescid' % (sid, 'AB' * 20))
-            sim.event('HS_DESC UPLOADED %s UNKNOWN $%s' % (sid, 'AB' * 20))
-            sim.pump()
-            if len(rec.fires) != 1 or rec.kind != 'ok':
-                viol.append(('create-outcome', feat, '%r (fired %d times)' % (rec.summary(), len(rec.fires))))
-                return dict(viol=viol, obs=('outcome',), log=log)
-            svc = rec.value
-            if svc.hostname != '%s.onion' % sid:
-                viol.append(('hostname', feat, 'service.hostname %r, Tor returned ServiceID %s' % (svc.hostname, sid)))
-            pk = svc.private_key
-            gen = sim.onions[sid].get('generated_key')
-            if key == 'discard':
-                if pk is not None:
-                    viol.append(('discarded-key-stored', 'after-completion' + ('/server-echoed' if echo_key else ''),
-                                 'private_key is %r although discarding was requested' % (pk,)))
-            elif key == 'none':
-                if pk != gen:
-                    viol.append(('generated-key-not-retained', feat, 'private_key %r, Tor generated %r' % (pk, gen)))
-            else:
-                if pk not in (key_arg(key, version, kw_blob), '%s:%s' % (pre, kw_blob)):
-                    viol.append(('supplied-key-altered', key, 'private_key %r, caller supplied %r' % (pk, key_arg(key, version, kw_blob))))
-            if auth != 'none':
-                names = sorted(svc.client_names())
-                if names != sorted(n for n, t in auth_expected(auth)):
-                    viol.append(('clients', auth, 'service has clients %r' % (names,)))
-                for n, t in auth_expected(auth):
-                    try:
-                        tok = svc.get_client(n).auth_token
-                    except Exception as e:
-                        tok = 'raised %r' % (e,)
-                    want_tok = t if t is not None else 'GENTOKEN%s' % n
-                    if tok != want_tok:
-                        viol.append(('client-token', 'supplied' if t else 'generated', 'client %s token %r, reference %r' % (n, tok, want_tok)))
-            # removal
-            n0 = len(sim.commands)
-            rr = DRec(svc.remove())
-            sim.pump()
-            dels = [c for c in sim.commands[n0:] if c.startswith('DEL_ONION')]
-            if dels != ['DEL_ONION %s' % sid]:
-                viol.append(('del-onion', feat, 'remove() wrote %r, the service id is %s' % (dels, sid)))
-            obs = (line, svc.hostname, repr(pk))
+        auth_obj = auth_arg(auth) if auth != 'none' else None
+        for nth in range(2 if reuse else 1):
+          # (second round: the caller passes the very same ports list and AuthBasic object again)
+          nports0 = len(w.reactor.ports)
+          nviol0 = len(viol)
+          base = len(sim.commands)
+          raised = None
+          rec = None
+          try:
+              if entry in ('tor', 'tor-nonanon'):
+                  from txtorcon.controller import Tor
+                  # 'tor-nonanon': the Tor object of a Tor launched in non-anonymous mode; the service's flags still follow the request
+                  tor = Tor(w.reactor, impl.proto, _tor_config=impl.cfg, _non_anonymous=(True if entry == 'tor-nonanon' else None))
+                  d = tor.create_onion_service(args, private_key=kw['private_key'], version=version,
+                                               single_hop=single_hop, detach=detach)
+              elif auth == 'none':
+                  d = EphemeralOnionService.create(w.reactor, impl.cfg, args, **kw)
+              else:
+                  d = EphemeralAuthenticatedOnionService.create(w.reactor, impl.cfg, args, auth=auth_obj, **kw)
+              rec = DRec(d)
+          except Exception as e:
+              raised = e
+          sim.pump()
+          cmds = sim.commands[base:]
+          adds = [c for c in cmds if c.startswith('ADD_ONION')]
+          stray = [c for c in cmds if not c.startswith(('ADD_ONION', 'SETEVENTS', 'GETINFO', 'GETCONF'))]
+          feat = 'v%d/%s/%s' % (version, key, auth)
+          should_reject = bad is not None or key in ('cr', 'lf', 'crlf')
+          svc_mid = None
+          if should_reject:
+              failed = raised is not None or (rec is not None and rec.kind == 'err')
+              if adds:
+                  viol.append(('add-onion-sent-for-rejected-request', bad or ('key-' + key), 'sent %r' % (adds,)))
+              if not failed:
+                  viol.append(('bad-request-not-refused', bad or ('key-' + key), 'create() -> %r' % (rec.summary() if rec else None,)))
+              if stray:
+                  viol.append(('stray-command', stray[0].split()[0], '%r' % (stray,)))
+              obs = ('rejected', tuple(adds))
+          elif key == 'other-version' and not adds:
+              failed = raised is not None or (rec is not None and rec.kind == 'err')
+              if not failed:
+                  viol.append(('bad-request-not-refused', 'key-other-version', '%r' % (rec.summary() if rec else None,)))
+              obs = ('rejected-other-version',)
+          else:
+              if raised is not None:
+                  viol.append(('create-raised', feat + '/' + type(raised).__name__, '%r' % (raised,)))
+                  return dict(viol=viol, obs=('raised',), log=log)
+              if len(adds) != 1:
+                  viol.append(('not-one-add-onion', 'n=%d' % len(adds), '%s: %r' % (feat, adds)))
+                  return dict(viol=viol, obs=('n', len(adds)), log=log)
+              line = adds[0]
+              log.append(line)
+              try:
+                  req = addonion.parse(line[len('ADD_ONION '):])
+              except addonion.BadRequest as e:
+                  viol.append(('add-onion-malformed', feat, '%r: %s' % (line, e)))
+                  return dict(viol=viol, obs=('malformed',), log=log)
+              # key specifier
+              kt, blob = req['key_spec']
+              kw_blob = RSA_BLOB if auth != 'none' else BLOB
+              pre = 'RSA1024' if version == 2 else 'ED25519-V3'
+              if key in ('none', 'discard'):
+                  ok = (kt == 'NEW' and ((version == 3 and blob == 'ED25519-V3') or (version == 2 and blob in ('BEST', 'RSA1024'))))
+              elif key == 'bare':
+                  ok = (kt, blob) == (pre, kw_blob)
+              elif key == 'prefixed':
+                  ok = (kt, blob) == (pre, kw_blob)
+              else:
+                  other = 'ED25519-V3' if version == 2 else 'RSA1024'
+                  ok = (kt, blob) == (other, kw_blob)
+              if not ok:
+                  viol.append(('key-specifier', '%s/v%d' % (key, version), 'requested key %s for version %d, sent %s:%s' % (key, version, kt, blob)))
+              # ports
+              got_ports = req['ports']
+              wp = list(want_ports)
+              assigned = [p.port for p in w.reactor.ports][nports0:]
+              ok_ports = len(got_ports) == len(wp)
+              if ok_ports:
+                  ai = 0
+                  for (gv, gt), (wv, wt) in zip(got_ports, wp):
+                      if wt is None:
+                          wt = '127.0.0.1:%d' % (assigned[ai] if ai < len(assigned) else -1)
+                          ai += 1
+                      if (gv, gt) != (wv, wt):
+                          ok_ports = False
+              if not ok_ports:
+                  viol.append(('port-mappings', '/'.join(ports_forms), 'requested %r, ADD_ONION has %r (reactor assigned %r)' % (args, got_ports, assigned)))
+              # flags
+              want_flags = set()
+              if detach:
+                  want_flags.add('Detach')
+              if key == 'discard':
+                  want_flags.add('DiscardPK')
+              if auth != 'none':
+                  want_flags.add('BasicAuth')
+              if single_hop:
+                  want_flags.add('NonAnonymous')
+              if set(req['flags']) != want_flags or len(req['flags']) != len(set(req['flags'])):
+                  miss = sorted(want_flags - set(req['flags']))
+                  extra = sorted(set(req['flags']) - want_flags)
+                  viol.append(('flags', 'missing-%s' % '+'.join(miss) if miss else 'extra-%s' % '+'.join(extra),
+                               '%s detach=%r single_hop=%r: Flags=%r, reference %r' % (feat, detach, single_hop, req['flags'], sorted(want_flags))))
+              if req['client_auth'] != auth_expected(auth):
+                  viol.append(('client-auth', auth, 'sent %r, reference %r' % (req['client_auth'], auth_expected(auth))))
+              # between the reply and completion
+              sid = list(sim.onions)[-1] if sim.onions else None
+              pend_services = [s for s in impl.cfg.EphemeralOnionServices]
+              svc_mid = pend_services[-1] if pend_services else None
+              if svc_mid is not None and key == 'discard':
+                  pk = svc_mid.private_key
+                  if pk is not None and pk is not DISCARD:
+                      viol.append(('discarded-key-stored', 'before-completion', 'private_key is %r although discarding was requested' % (pk,)))
+              if rec.fires:
+                  viol.append(('completed-before-upload', feat, 'create() fired before any descriptor upload: %r' % (rec.summary(),)))
+              if auth != 'none' and key == 'discard':
+                  # without the key the client cannot recognise this service's HS_DESC events: checked up to the reply only
+                  errs = w.errors()
+                  if errs:
+                      viol.append(('logged-error', errs[0][1], '%r' % (errs[:1],)))
+                  return dict(viol=viol, obs=(line, 'after-reply-only'), log=log)
+              # the descriptor upload that lets creation finish
+              sim.event('HS_DESC UPLOAD %s UNKNOWN $%s somedescid' % (sid, 'AB' * 20))
+              sim.event('HS_DESC UPLOADED %s UNKNOWN $%s' % (sid, 'AB' * 20))
+              sim.pump()
+              if len(rec.fires) != 1 or rec.kind != 'ok':
+                  viol.append(('create-outcome', feat, '%r (fired %d times)' % (rec.summary(), len(rec.fires))))
+                  return dict(viol=viol, obs=('outcome',), log=log)
+              svc = rec.value
+              if svc.hostname != '%s.onion' % sid:
+                  viol.append(('hostname', feat, 'service.hostname %r, Tor returned ServiceID %s' % (svc.hostname, sid)))
+              pk = svc.private_key
+              gen = sim.onions[sid].get('generated_key')
+              if key == 'discard':
+                  if pk is not None:
+                      viol.append(('discarded-key-stored', 'after-completion' + ('/server-echoed' if echo_key else ''),
+                                   'private_key is %r although discarding was requested' % (pk,)))
+              elif key == 'none':
+                  if pk != gen:
+                      viol.append(('generated-key-not-retained', feat, 'private_key %r, Tor generated %r' % (pk, gen)))
+              else:
+                  if pk not in (key_arg(key, version, kw_blob), '%s:%s' % (pre, kw_blob)):
+                      viol.append(('supplied-key-altered', key, 'private_key %r, caller supplied %r' % (pk, key_arg(key, version, kw_blob))))
+              if auth != 'none':
+                  names = sorted(svc.client_names())
+                  if names != sorted(n for n, t in auth_expected(auth)):
+                      viol.append(('clients', auth, 'service has clients %r' % (names,)))
+                  for n, t in auth_expected(auth):
+                      try:
+                          tok = svc.get_client(n).auth_token
+                      except Exception as e:
+                          tok = 'raised %r' % (e,)
+                      want_tok = t if t is not None else 'GENTOKEN%s' % n
+                      if tok != want_tok:
+                          viol.append(('client-token', 'supplied' if t else 'generated', 'client %s token %r, reference %r' % (n, tok, want_tok)))
+              # removal
+              n0 = len(sim.commands)
+              rr = DRec(svc.remove())
+              sim.pump()
+              dels = [c for c in sim.commands[n0:] if c.startswith('DEL_ONION')]
+              if dels != ['DEL_ONION %s' % sid]:
+                  viol.append(('del-onion', feat, 'remove() wrote %r, the service id is %s' % (dels, sid)))
+              obs = (line, svc.hostname, repr(pk))
+          if nth == 1:
+              viol[nviol0:] = [(c, f + '/same-arguments-used-again', d) for c, f, d in viol[nviol0:]]
         errs = w.errors()
         if errs:
             viol.append(('logged-error', errs[0][1], '%r' % (errs[:1],)))
@@ -328,6 +337,7 @@ def tasks(tier, seed):
             out.append(('prod', version, key))
     out.append(('bad',))
     out.append(('tor',))
+    out.append(('reuse',))
     return out
 
 
@@ -374,6 +384,15 @@ def run_task(param, acc):
                          cost=len(pf) * 10 + AUTHS.index(auth) + detach + single_hop)
         if r:
             acc.sample(dict(version=version, key=key, add_onion=r['log'][-1:] if r['log'] else None), limit=1)
+    elif param[0] == 'reuse':
+        # the same ports list and the same AuthBasic object handed to a second create() (after the first service is gone)
+        for version, key, auth in [(2, 'none', a) for a in AUTHS] + [(2, 'bare', 'basic3mixed'), (3, 'none', 'none'), (3, 'discard', 'none')]:
+            for pf in [('int',), ('int', 'pair'), ('ippair', 'int', 'unix'), ('string', 'ippair')]:
+                for detach in (False, True):
+                    r = run_create(version, key, detach, False, auth, pf, reuse=True)
+                    rec_exec(acc, ('reuse', version, key, auth, pf, detach), r,
+                             dict(version=version, key=key, detach=detach, single_hop=False, auth=auth, ports=list(pf), entry='create', echo=False,
+                                  bad=None, reuse=True), cost=30 + len(pf) * 10 + AUTHS.index(auth) + detach)
     elif param[0] == 'bad':
         for version in (2, 3):
             for bad in BAD_PORTS:
@@ -398,7 +417,7 @@ def replay(p):
         r = run_discovered(p['which'], p['sid'])
         return dict(violations=[dict(signature='%s/%s' % (c, f), what=d) for c, f, d in r['viol']], log=r['log'])
     r = run_create(p['version'], p['key'], p['detach'], p['single_hop'], p['auth'], tuple(p['ports']), entry=p['entry'],
-                   echo_key=p.get('echo', False), bad=p.get('bad'))
+                   echo_key=p.get('echo', False), bad=p.get('bad'), reuse=p.get('reuse', False))
     return dict(violations=[dict(signature='%s/%s' % (c, f), what=d) for c, f, d in r['viol']], log=r['log'])
 
 
@@ -407,7 +426,7 @@ def meta(tier):
         engine='E1 full product enumeration on the real ephemeral-onion-service creation code against SimTor',
         rule='version {2,3} x key {none, discard, bare blob, correctly prefixed blob, blob prefixed for the other version, blob with CR / '
              'LF / CRLF+injected command} x detach x single-hop x auth {none, basic with 0/1/3 clients, with and without tokens} x port '
-             'lists of 1..%d entries in 4 accepted forms; 5 rejected port forms; Tor.create_onion_service as second entry point; a Tor '
+             'lists of 1..%d entries in 5 accepted forms (incl. a pair with an explicit IP:port target); the same ports list and AuthBasic object used for a second create; 5 rejected port forms; Tor.create_onion_service as second entry point; a Tor '
              'that echoes a key despite DiscardPK. non-trivial: all' % (2 if tier == 'quick' else 3),
         bounds=dict(versions=[2, 3], keys=KEYS, auths=AUTHS, port_forms=PORT_FORMS, port_list_len=(2 if tier == 'quick' else 3)),
         assumptions=['authenticated (BasicAuth) services: version 2 only, with a real RSA key (txtorcon recognises their HS_DESC events by the '
